@@ -276,7 +276,8 @@ class LayoutPlugin(Plugin):
             elif self.entailed(sym.num_cmp(">=", n, width)):
                 pad = 0
             else:
-                pad = sym.num_sub(width, n) if self.ctx.branch(sym.num_cmp("<", n, width), None) else 0
+                # undetermined: keep it symbolic (an overflowing field simply gets no padding) - no fork
+                pad = sym.ite(sym.num_cmp("<", n, width), sym.num_sub(width, n), 0)
         else:
             pad = max(0, width - n)
         if align == ">":
